@@ -434,4 +434,389 @@ theorem Image_memory_list (d : DumpIn) :
       exact At.end_ _ _
     exact lift_pos d (acc3 d) (acc4 d) _ (base3 d) hplace (ext_4_19 d)
 
+
+-- exception stream --------------------------------------------------------------------------------------------
+
+theorem ctcAt_none (blamed : Nat) (hc : Bool) (pos : Nat) (ts : List DThread) (c : CTC)
+    (h : ∀ t ∈ ts, t.tid ≠ blamed) : ctcAt blamed hc pos ts c = c := by
+  induction ts generalizing pos c with
+  | nil => rfl
+  | cons a r ih =>
+    have ha : a.tid ≠ blamed := h a (List.mem_cons_self ..)
+    simp only [ctcAt, ha, if_false]
+    exact ih _ _ (fun t ht => h t (List.mem_cons_of_mem _ ht))
+
+/-- the crashing-thread context is that of the last listed thread with the blamed id -/
+theorem ctcAt_spec (blamed : Nat) (hc : Bool) (pos : Nat) (ts : List DThread) (c : CTC) (k : Nat) (t : DThread)
+    (hk : ts[k]? = some t) (ht : t.tid = blamed)
+    (hlast : ∀ j t', k < j → ts[j]? = some t' → t'.tid ≠ blamed) :
+    ctcAt blamed hc pos ts c =
+      if hc then CTC.crashContext (t.ctx.length, t.ctxRva (pos + blobOff ts k))
+      else CTC.crashContextPlusAddress (t.ctx.length, t.ctxRva (pos + blobOff ts k)) t.ip := by
+  induction ts generalizing pos c k with
+  | nil => simp at hk
+  | cons a r ih =>
+    cases k with
+    | zero =>
+      simp at hk; subst hk
+      have hr : ∀ t' ∈ r, t'.tid ≠ blamed := by
+        intro t' hm
+        obtain ⟨j, hj⟩ := List.getElem?_of_mem hm
+        exact hlast (j + 1) t' (by omega) (by simpa using hj)
+      simp only [ctcAt, ht, if_true]
+      rw [ctcAt_none blamed hc _ r _ hr]
+      simp [blobOff, threadBlobs]
+    | succ k =>
+      have hr : r[k]? = some t := by simpa using hk
+      have hl : ∀ j t', k < j → r[j]? = some t' → t'.tid ≠ blamed := by
+        intro j t' hj hjt
+        exact hlast (j + 1) t' (by omega) (by simpa using hjt)
+      have e2 : pos + a.blob.length + blobOff r k = pos + blobOff (a :: r) (k + 1) := by
+        simp only [blobOff, threadBlobs, List.take_succ_cons, List.flatMap_cons, List.length_append]; omega
+      simp only [ctcAt]
+      rw [ih (pos + a.blob.length) _ k hr hl, e2]
+
+theorem base4' (d : DumpIn) : (acc4 d).base = 32 + 12 * d.numWriters := rfl
+
+/-- **Image (exception, blamed thread listed).** The exception stream — directory slot 3 — names the blamed thread,
+    carries the supplied signal number / code / address (or "dump requested" and the thread's instruction
+    pointer), and its context location is exactly the location stored in the blamed thread's thread-list record,
+    where that thread's context bytes are. -/
+theorem Image_exception_listed (d : DumpIn) (k : Nat) (t : DThread) (hk : d.threads[k]? = some t) (ht : t.tid = d.blamed)
+    (hlast : ∀ j t', k < j → d.threads[j]? = some t' → t'.tid ≠ d.blamed) :
+    let loc := (t.ctx.length, t.ctxRva (threadPos d k))
+    let f := match d.crash with
+      | some c => (c.signo, c.code, c.addr)
+      | none => (DUMP_REQUESTED, 0, t.ip)
+    (dumpAcc d).dir[3]? = some ⟨ST_EXCEPTION, 168, (acc4 d).pos⟩ ∧
+    At (dumpBytes d) (acc4 d).pos (serExc d.blamed f.1 f.2.1 f.2.2 loc.1 loc.2) ∧
+    At (dumpBytes d) loc.2 t.ctx := by
+  intro loc f
+  have hctc : ctcOf d = if d.crash.isSome then CTC.crashContext loc else CTC.crashContextPlusAddress loc t.ip := by
+    unfold ctcOf
+    rw [ctcAt_spec d.blamed d.crash.isSome _ d.threads CTC.none k t hk ht hlast]
+    rfl
+  have hns : needsStandalone d = false := by
+    unfold needsStandalone
+    rw [hctc]
+    cases d.crash <;> simp
+  have hbytes : (acc5 d).bytes = (acc4 d).bytes ++ exceptionStream d.crash d.blamed (ctcOf d) (d.standalone.length, (acc4 d).pos) := by
+    simp [acc5, stException, hns, Acc.add, Acc.publish]
+  have hstream : exceptionStream d.crash d.blamed (ctcOf d) (d.standalone.length, (acc4 d).pos) =
+      serExc d.blamed f.1 f.2.1 f.2.2 loc.1 loc.2 := by
+    rw [hctc]
+    unfold exceptionStream excFields
+    cases hcr : d.crash with
+    | none => simp [f, hcr]
+    | some c => simp [f, hcr]
+  refine ⟨?_, ?_, (Image_thread d k t hk).2.2.2⟩
+  · rw [dumpAcc_eq]
+    apply (ext_5_19 d).dir
+    simp [acc5, acc4, acc3, acc2, acc1, acc0, stException, hns, stMemoryList, stApp, stModules, stThreadList, Acc.add,
+      Acc.publish, Acc.pos]
+  · have hplace : At (acc5 d).bytes (acc4 d).bytes.length (serExc d.blamed f.1 f.2.1 f.2.2 loc.1 loc.2) := by
+      rw [hbytes, hstream]; exact At.end_ _ _
+    exact lift_pos d (acc4 d) (acc5 d) _ (base4 d) hplace (ext_5_19 d)
+
+/-- **Image (exception, blamed thread not listed, crash context supplied).** The supplied context is written for the
+    exception stream itself and the stream points at it. -/
+theorem Image_exception_unlisted (d : DumpIn) (c : CrashInfo) (hc : d.crash = some c)
+    (hno : ∀ t ∈ d.threads, t.tid ≠ d.blamed) :
+    At (dumpBytes d) (acc4 d).pos d.standalone ∧
+    At (dumpBytes d) ((acc4 d).pos + d.standalone.length)
+      (serExc d.blamed c.signo c.code c.addr d.standalone.length (acc4 d).pos) := by
+  have hctc : ctcOf d = CTC.none := by
+    unfold ctcOf; exact ctcAt_none _ _ _ _ _ hno
+  have hns : needsStandalone d = true := by
+    unfold needsStandalone; rw [hctc, hc]; rfl
+  have hstream : exceptionStream d.crash d.blamed (ctcOf d) (d.standalone.length, (acc4 d).pos) =
+      serExc d.blamed c.signo c.code c.addr d.standalone.length (acc4 d).pos := by
+    rw [hctc, hc]; simp [exceptionStream, excFields]
+  have hbytes : (acc5 d).bytes = (acc4 d).bytes ++ (d.standalone ++
+      serExc d.blamed c.signo c.code c.addr d.standalone.length (acc4 d).pos) := by
+    simp [acc5, stException, hns, Acc.add, Acc.publish, hstream, List.append_assoc]
+  have hplace : At (acc5 d).bytes (acc4 d).bytes.length (d.standalone ++
+      serExc d.blamed c.signo c.code c.addr d.standalone.length (acc4 d).pos) := by
+    rw [hbytes]; exact At.end_ _ _
+  have h := lift_pos d (acc4 d) (acc5 d) _ (base4 d) hplace (ext_5_19 d)
+  exact ⟨h.sub_head, h.sub_tail⟩
+
+
+-- thread names -------------------------------------------------------------------------------------------------
+
+def nameOff (ns : List (Nat × List Nat)) (j : Nat) : Nat := ((ns.take j).flatMap (fun n => mdStr n.2)).length
+
+theorem nameRecord_length (tid rva : Nat) : (nameRecord tid rva).length = 12 := by simp [nameRecord]
+
+theorem nameRecs_at (pos : Nat) (ns : List (Nat × List Nat)) (j : Nat) (tid : Nat) (us : List Nat)
+    (h : ns[j]? = some (tid, us)) : At (nameRecs pos ns) (12 * j) (nameRecord tid (pos + nameOff ns j)) := by
+  induction ns generalizing pos j with
+  | nil => simp at h
+  | cons a r ih =>
+    obtain ⟨atid, aus⟩ := a
+    cases j with
+    | zero =>
+      simp at h; obtain ⟨h1, h2⟩ := h; subst h1; subst h2
+      simp only [nameRecs, nameOff, List.take_zero, List.flatMap_nil, List.length_nil, Nat.add_zero, Nat.mul_zero]
+      exact At.head _ _
+    | succ j =>
+      have hr : r[j]? = some (tid, us) := by simpa using h
+      have := ih (pos + (mdStr aus).length) j hr
+      have h2 := At.skip (nameRecord atid pos) 12 (nameRecord_length _ _) this
+      have e1 : 12 + 12 * j = 12 * (j + 1) := by omega
+      have e2 : pos + (mdStr aus).length + nameOff r j = pos + nameOff ((atid, aus) :: r) (j + 1) := by
+        simp only [nameOff, List.take_succ_cons, List.flatMap_cons, List.length_append]; omega
+      rw [e1, e2] at h2
+      exact h2
+
+theorem nameRecs_length (pos : Nat) (ns : List (Nat × List Nat)) : (nameRecs pos ns).length = 12 * ns.length := by
+  induction ns generalizing pos with
+  | nil => rfl
+  | cons a r ih => obtain ⟨t, u⟩ := a; simp [nameRecs, nameRecord_length, ih]; omega
+
+theorem base16 (d : DumpIn) : (acc16 d).base = 32 + 12 * d.numWriters := (ext_0_16 d).1
+where ext_0_16 (d : DumpIn) : Acc.Ext (acc0 d) (acc16 d) :=
+  (ext_0_1 d).trans ((ext_1_2 d).trans ((ext_2_3 d).trans ((ext_3_4 d).trans ((ext_4_5 d).trans ((ext_5_6 d).trans
+    ((ext_6_7 d).trans ((ext_7_14 d).trans (ext_14_16 d))))))))
+
+/-- **Image (thread names).** The thread-names stream sits at the position it is published with; record `j` of it
+    carries the id of the `j`-th named thread and the location of a string that is that thread's name. -/
+theorem Image_name (d : DumpIn) (j : Nat) (tid : Nat) (us : List Nat) (hj : d.names[j]? = some (tid, us)) :
+    let pos := (acc16 d).pos
+    let q := pos + 4 + 12 * d.names.length + nameOff d.names j
+    At (dumpBytes d) pos (le 4 d.names.length) ∧
+    At (dumpBytes d) (pos + 4 + 12 * j) (nameRecord tid q) ∧
+    At (dumpBytes d) q (mdStr us) := by
+  intro pos q
+  have hplace : At (acc17 d).bytes (acc16 d).bytes.length (namesBody (acc16 d).pos d.names) := by
+    show At ((acc16 d).bytes ++ _) _ _
+    exact At.end_ _ _
+  have hb := lift_pos d (acc16 d) (acc17 d) _ (base16 d) hplace (ext_17_19 d)
+  unfold namesBody at hb
+  have hcount := (hb.sub_head).sub_head
+  have hrecs : At (dumpBytes d) (pos + 4) (nameRecs (pos + 4 + 12 * d.names.length) d.names) := by
+    have := hb.sub (a := le 4 d.names.length)
+    simpa using this
+  have hrec := nameRecs_at (pos + 4 + 12 * d.names.length) d.names j tid us hj
+  have hr : At (dumpBytes d) (pos + 4 + 12 * j) (nameRecord tid q) := by
+    obtain ⟨pre, post, he, hl⟩ := hrec
+    obtain ⟨pre2, post2, he2, hl2⟩ := hrecs
+    refine ⟨pre2 ++ pre, post ++ post2, ?_, by simp [hl, hl2]⟩
+    rw [he2, he]; simp [List.append_assoc, q]
+  have hstrs : At (dumpBytes d) (pos + 4 + 12 * d.names.length) (d.names.flatMap (fun n => mdStr n.2)) := by
+    have := hb.sub_tail
+    simpa [nameRecs_length, Nat.add_assoc] using this
+  have hstr : At (dumpBytes d) q (mdStr us) := by
+    have h1 := At.flatMap_take (fun (n : Nat × List Nat) => mdStr n.2) d.names j (tid, us) hj
+    obtain ⟨pre, post, he, hl⟩ := h1
+    obtain ⟨pre2, post2, he2, hl2⟩ := hstrs
+    refine ⟨pre2 ++ pre, post ++ post2, ?_, by simp [hl, hl2, q, nameOff]⟩
+    rw [he2, he]; simp [List.append_assoc]
+  exact ⟨hcount, hr, hstr⟩
+
+
+-- published streams: inside the image, in publication order, no overlap -----------------------------------------
+
+/-- entries in publication order: every non-zero entry starts at or after `lo` and the end of its predecessor, and
+    the last one ends at or before `hi` -/
+def Sorted : Nat → List DirEnt → Nat → Prop
+  | lo, [], hi => lo ≤ hi
+  | lo, e :: r, hi => (e = zeroEnt ∧ Sorted lo r hi) ∨ (e ≠ zeroEnt ∧ lo ≤ e.rva ∧ Sorted (e.rva + e.size) r hi)
+
+theorem Sorted.le : ∀ {lo : Nat} {l : List DirEnt} {hi : Nat}, Sorted lo l hi → lo ≤ hi
+  | _, [], _, h => h
+  | _, e :: r, _, h => by
+    rcases h with ⟨_, h⟩ | ⟨_, h1, h⟩
+    · exact Sorted.le h
+    · have := Sorted.le h; omega
+
+theorem Sorted.mono_hi : ∀ {lo : Nat} {l : List DirEnt} {hi hi' : Nat}, Sorted lo l hi → hi ≤ hi' → Sorted lo l hi'
+  | _, [], _, _, h, hh => by simp only [Sorted] at *; omega
+  | _, e :: r, _, _, h, hh => by
+    rcases h with ⟨h0, h⟩ | ⟨h0, h1, h⟩
+    · exact Or.inl ⟨h0, Sorted.mono_hi h hh⟩
+    · exact Or.inr ⟨h0, h1, Sorted.mono_hi h hh⟩
+
+theorem Sorted.snoc_zero : ∀ {lo : Nat} {l : List DirEnt} {hi : Nat}, Sorted lo l hi → Sorted lo (l ++ [zeroEnt]) hi
+  | _, [], _, h => Or.inl ⟨rfl, h⟩
+  | _, e :: r, _, h => by
+    rcases h with ⟨h0, h⟩ | ⟨h0, h1, h⟩
+    · exact Or.inl ⟨h0, Sorted.snoc_zero h⟩
+    · exact Or.inr ⟨h0, h1, Sorted.snoc_zero h⟩
+
+theorem Sorted.snoc : ∀ {lo : Nat} {l : List DirEnt} {hi : Nat} (e : DirEnt) (hi' : Nat), Sorted lo l hi →
+    hi ≤ e.rva → e.rva + e.size ≤ hi' → Sorted lo (l ++ [e]) hi'
+  | lo, [], hi, e, hi', h, h1, h2 => by
+    by_cases hz : e = zeroEnt
+    · subst hz; simp only [Sorted] at h; exact Or.inl ⟨rfl, by simp only [Sorted, zeroEnt] at *; omega⟩
+    · simp only [Sorted] at h; exact Or.inr ⟨hz, by omega, h2⟩
+  | lo, x :: r, hi, e, hi', h, h1, h2 => by
+    rcases h with ⟨h0, h⟩ | ⟨h0, hx, h⟩
+    · exact Or.inl ⟨h0, Sorted.snoc e hi' h h1 h2⟩
+    · exact Or.inr ⟨h0, hx, Sorted.snoc e hi' h h1 h2⟩
+
+/-- the invariant of the pipeline -/
+def Acc.Ordered (a : Acc) : Prop := Sorted a.base a.dir a.pos
+
+theorem ord_publish (a : Acc) (body pre : Bytes) (e : DirEnt) (h : a.Ordered)
+    (h1 : e.rva = a.pos + pre.length) (h2 : e.size ≤ body.length) :
+    (((a.add pre).add body).publish e).Ordered := by
+  unfold Acc.Ordered at *
+  simp only [Acc.publish, Acc.add, Acc.pos, List.length_append] at *
+  exact Sorted.snoc e _ h (by omega) (by omega)
+
+theorem ord_zero (a : Acc) (g : Bytes) (h : a.Ordered) : ((a.add g).publish zeroEnt).Ordered := by
+  unfold Acc.Ordered at *
+  simp only [Acc.publish, Acc.add, Acc.pos, List.length_append] at *
+  exact Sorted.snoc_zero (Sorted.mono_hi h (by omega))
+
+theorem add_nil (a : Acc) : a.add [] = a := by simp [Acc.add]
+
+theorem memoryListStream_length (bl : List Desc) : (memoryListStream bl).length = 4 + 16 * bl.length := by
+  simp [memoryListStream, flatMap_const_length serDesc 16 (by intro x; simp [serDesc])]
+
+theorem serExc_length (a b c e f g : Nat) : (serExc a b c e f g).length = 168 := by simp [serExc, zeros]
+
+theorem ord_stThreadList (d : DumpIn) (a : Acc) (h : a.Ordered) : (stThreadList d a).Ordered := by
+  have := ord_publish a (threadListBody a.pos d.threads) [] ⟨ST_THREAD_LIST, 4 + 48 * d.threads.length, a.pos⟩ h (by simp)
+    (by simp [threadListBody, threadRecs_length])
+  rw [add_nil] at this
+  exact this
+
+theorem ord_stModules (d : DumpIn) (a : Acc) (h : a.Ordered) : (stModules d a).Ordered := by
+  have hl : ∀ (pos : Nat) (ms : List DModule), (moduleRecs pos ms).length = 108 * ms.length := by
+    intro pos ms
+    induction ms generalizing pos with
+    | nil => rfl
+    | cons m r ih =>
+      have : (moduleRec pos m).length = 108 := by
+        unfold moduleRec
+        cases m.ver with
+        | none => by_cases hi : m.ident.isEmpty <;> simp [hi, zeros]
+        | some v => obtain ⟨a, b, c, d⟩ := v; by_cases hi : m.ident.isEmpty <;> simp [hi, zeros]
+      simp [moduleRecs, this, ih]; omega
+  exact ord_publish a (le 4 d.modules.length ++ moduleRecs a.pos d.modules) (moduleBlobs d.modules)
+    ⟨ST_MODULE_LIST, 4 + 108 * d.modules.length, a.pos + (moduleBlobs d.modules).length⟩ h rfl (by simp [hl])
+
+theorem ord_stApp (d : DumpIn) (a : Acc) (h : a.Ordered) : (stApp d a).Ordered := by
+  unfold Acc.Ordered at *
+  simp only [stApp, Acc.add, Acc.pos, List.length_append] at *
+  exact Sorted.mono_hi h (by omega)
+
+theorem ord_stMemoryList (a : Acc) (h : a.Ordered) : (stMemoryList a).Ordered := by
+  have := ord_publish a (memoryListStream a.blocks) [] ⟨ST_MEMORY_LIST, 4 + 16 * a.blocks.length, a.pos⟩ h (by simp)
+    (by simp [memoryListStream_length])
+  rw [add_nil] at this
+  exact this
+
+theorem ord_stException (d : DumpIn) (a : Acc) (h : a.Ordered) : (stException d a).Ordered := by
+  unfold stException
+  exact ord_publish a _ (if needsStandalone d then d.standalone else []) ⟨ST_EXCEPTION, 168, _⟩ h
+    (by simp [Acc.add, Acc.pos, Nat.add_assoc]) (by
+      unfold exceptionStream
+      simp only [serExc_length]; exact Nat.le_refl _)
+
+theorem ord_stSysInfo (d : DumpIn) (a : Acc) (h : a.Ordered) : (stSysInfo d a).Ordered := by
+  have := ord_publish a (serSysInfo d.sys (a.pos + 56) ++ mdStr d.sys.os) [] ⟨ST_SYSTEM_INFO, 56, a.pos⟩ h (by simp)
+    (by simp [serSysInfo, padTo_length]; omega)
+  rw [add_nil] at this
+  exact this
+
+theorem ord_stMemInfo (d : DumpIn) (a : Acc) (h : a.Ordered) : (stMemInfo d a).Ordered := by
+  have := ord_publish a (memInfoBody d.memInfo) [] ⟨ST_MEMORY_INFO_LIST, 16 + 48 * d.memInfo.length, a.pos⟩ h (by simp)
+    (by simp [memInfoBody, flatMap_const_length serMemInfo 48 (by intro x; simp [serMemInfo])]; omega)
+  rw [add_nil] at this
+  exact this
+
+theorem ord_stRaw (ty : Nat) (f : Option Bytes) (a : Acc) (h : a.Ordered) : (stRaw ty f a).Ordered := by
+  cases f with
+  | none => have := ord_zero a [] h; rw [add_nil] at this; exact this
+  | some bs =>
+    have := ord_publish a bs [] ⟨ty, bs.length, a.pos⟩ h (by simp) (by simp)
+    rw [add_nil] at this
+    exact this
+
+theorem ord_stDso (d : DumpIn) (a : Acc) (h : a.Ordered) : (stDso d a).Ordered := by
+  unfold stDso
+  cases d.dso with
+  | failed g => exact ord_zero a g h
+  | ok x =>
+    exact ord_publish a (serDsoDebug a.pos x ++ x.dyn) (dsoPrefix a.pos x) ⟨ST_LINUX_DSO_DEBUG, 36 + x.dyn.length, _⟩ h
+      (by simp [Acc.add, Acc.pos, Nat.add_assoc]) (by simp [serDsoDebug]; omega)
+
+theorem ord_stNames (d : DumpIn) (a : Acc) (h : a.Ordered) : (stNames d a).Ordered := by
+  have := ord_publish a (namesBody a.pos d.names) [] ⟨ST_THREAD_NAMES, 4 + 12 * d.names.length, a.pos⟩ h (by simp)
+    (by simp [namesBody, nameRecs_length])
+  rw [add_nil] at this
+  exact this
+
+theorem ord_stHandles (d : DumpIn) (a : Acc) (h : a.Ordered) : (stHandles d a).Ordered := by
+  unfold stHandles
+  cases d.handles with
+  | failed g => exact ord_zero a g h
+  | ok hs =>
+    have hl : ∀ (pos : Nat) (l : List DHandle), (handleRecs pos l).length = 32 * l.length := by
+      intro pos l
+      induction l generalizing pos with
+      | nil => rfl
+      | cons x r ih => simp [handleRecs, ih]; omega
+    exact ord_publish a (le 4 16 ++ le 4 32 ++ le 4 hs.length ++ le 4 0 ++ handleRecs a.pos hs) (handleNames hs)
+      ⟨ST_HANDLE_DATA, 16 + 32 * hs.length, _⟩ h (by simp [Acc.add, Acc.pos, Nat.add_assoc]) (by simp [hl]; omega)
+
+/-- **Image (streams ordered).** In the finished image the published stream extents start after the directory, follow
+    one another in publication order without overlap, and end inside the image. -/
+theorem Image_streams_ordered (d : DumpIn) :
+    Sorted (32 + 12 * d.numWriters) (dumpAcc d).dir (dumpBytes d).length := by
+  have h0 : (acc0 d).Ordered := by simp [Acc.Ordered, acc0, Sorted, Acc.pos]
+  have h19 : (dumpAcc d).Ordered := by
+    unfold dumpAcc
+    exact ord_stRaw _ _ _ (ord_stHandles d _ (ord_stNames d _ (ord_stRaw _ _ _ (ord_stDso d _ (ord_stRaw _ _ _
+      (ord_stRaw _ _ _ (ord_stRaw _ _ _ (ord_stRaw _ _ _ (ord_stRaw _ _ _ (ord_stRaw _ _ _ (ord_stRaw _ _ _
+      (ord_stMemInfo d _ (ord_stSysInfo d _ (ord_stException d _ (ord_stMemoryList _ (ord_stApp d _
+      (ord_stModules d _ (ord_stThreadList d _ h0))))))))))))))))))
+  have hb : (dumpAcc d).base = 32 + 12 * d.numWriters := by rw [dumpAcc_eq]; exact (((Acc.Ext.refl _).trans
+    ((ext_0_1 d).trans (ext_1_19 d)))).1
+  have hlen : (dumpBytes d).length = (dumpAcc d).pos := by
+    simp only [dumpBytes, List.length_append, serHeader_length, serDirectory_length, Acc.pos, hb]
+  unfold Acc.Ordered at h19
+  rw [hb] at h19
+  rw [hlen]; exact h19
+
+/-- two published streams never overlap, and both lie inside the image after the directory -/
+theorem Sorted.pair : ∀ {lo : Nat} {l : List DirEnt} {hi : Nat}, Sorted lo l hi → ∀ (i j : Nat) (a b : DirEnt), i < j →
+    l[i]? = some a → l[j]? = some b → a ≠ zeroEnt → b ≠ zeroEnt →
+    lo ≤ a.rva ∧ a.rva + a.size ≤ b.rva ∧ b.rva + b.size ≤ hi
+  | _, [], _, _, i, _, _, _, _, hi', _, _, _ => by simp at hi'
+  | lo, e :: r, hi, h, i, j, a, b, hij, ha, hb, hza, hzb => by
+    have hmem : ∀ {lo' : Nat} {l' : List DirEnt}, Sorted lo' l' hi → ∀ (k : Nat) (c : DirEnt), l'[k]? = some c → c ≠ zeroEnt →
+        lo' ≤ c.rva ∧ c.rva + c.size ≤ hi := by
+      intro lo' l'
+      induction l' generalizing lo' with
+      | nil => intro _ k c hk; simp at hk
+      | cons x r' ih =>
+        intro hs k c hk hz
+        rcases hs with ⟨h0, hs⟩ | ⟨h0, hx, hs⟩
+        · cases k with
+          | zero => simp at hk; subst hk; exact absurd h0 hz
+          | succ k => exact ih hs k c (by simpa using hk) hz
+        · cases k with
+          | zero => simp at hk; subst hk; exact ⟨hx, Sorted.le hs⟩
+          | succ k => have := ih hs k c (by simpa using hk) hz; omega
+    cases j with
+    | zero => omega
+    | succ j =>
+      have hbj : r[j]? = some b := by simpa using hb
+      rcases h with ⟨h0, hs⟩ | ⟨h0, hx, hs⟩
+      · cases i with
+        | zero => simp at ha; subst ha; exact absurd h0 hza
+        | succ i => exact Sorted.pair hs i j a b (by omega) (by simpa using ha) hbj hza hzb
+      · cases i with
+        | zero =>
+          simp at ha; subst ha
+          have := hmem hs j b hbj hzb
+          exact ⟨hx, this.1, this.2⟩
+        | succ i =>
+          have := Sorted.pair hs i j a b (by omega) (by simpa using ha) hbj hza hzb
+          omega
+
 end Mdw
